@@ -2,7 +2,7 @@
 PROPS = {}
 NOT_CLAIMED = {}
 HOOK_COMMITS = ['1939bdb']
-def prop(pid, families, **kw):
+def prop(pid, families=None, **kw):
     d = dict(families=families); d.update(kw); PROPS[pid] = d
 
 import glob as _glob, os as _os
